@@ -63,6 +63,20 @@ def compare(out, t, spec, probes, tag, use_model=True):
     except Exception as e:
         out.exc("build-dsl", e)
         return
+    # a malformed relative of the spec is parsed (and rejected) first: rejections must leave
+    # nothing behind that changes how the well-formed spec is read afterwards
+    if isinstance(spec, dict) and len(spec) == 1:
+        k0 = next(iter(spec))
+        if isinstance(k0, str) and k0.count(".") == 1 and (len(k0) + len(repr(spec[k0]))) % 4 == 0:
+            datum_tok, call_tok = k0.split(".")
+            for bad in ({f"{datum_tok}.{call_tok}.gt": 1}, {f"{datum_tok}.{call_tok}.{call_tok}": spec[k0]}):
+                try:
+                    with warnings.catch_warnings():
+                        warnings.simplefilter("ignore")
+                        ns.c.ConditionLike.from_spec(copy.deepcopy(bad))
+                except Exception:
+                    pass
+            out.label("after-a-rejected-relative")
     try:
         with warnings.catch_warnings():
             warnings.simplefilter("ignore")
